@@ -44,6 +44,7 @@ def main():
     ap.add_argument('--demo-cmd', default='')
     ap.add_argument('--props', default='')
     ap.add_argument('--exclude', default='')
+    ap.add_argument('--isolate', action='store_true', help='run the check on a private copy of lean/ and build/ (parallel-safe)')
     a = ap.parse_args()
     files = re.findall(r'^\+\+\+ b/(\S+)', open(a.patch).read(), re.M)
     props = sorted(anchored(files) | {a.prop}) if not a.all else ['C%02d' % i for i in range(1, 21)]
@@ -55,6 +56,7 @@ def main():
     rc, out = sh('git -C /repo worktree add -q --detach %s HEAD' % wt)
     assert rc == 0, out
     env = {}
+    iso = None
     meta = {'kind': 'behaviour-preserving change', 'written_for': a.prop, 'touches': files, 'checks_run': props, 'ran': []}
     try:
         dcmd = demo_cmd(os.path.abspath(a.demo), wt, a.demo_cmd)
@@ -69,6 +71,9 @@ def main():
                     break
         meta['ran'].append({'cmd': 'demo on unchanged tree', 'exit': rc0, 'tail': o0.strip()[-200:] if rc0 else ''})
         rc, out = sh('git -C %s apply %s' % (wt, os.path.abspath(a.patch)))
+        if rc != 0:      # /repo has moved on since the change was written (later fix: commits): merge
+            rc, out = sh('git -C %s apply -3 %s && git -C %s reset -q' % (wt, os.path.abspath(a.patch), wt))
+            meta['ran'].append({'cmd': 'git apply -3 (the base of the change is older than /repo HEAD)', 'exit': rc})
         assert rc == 0, 'patch does not apply: ' + out
         rc1, o1 = sh('cd %s && PYTHONPATH=%s/python /venv/bin/python -m pytest -q -p no:cacheprovider python/tests 2>&1 | tail -1' % (wt, wt))
         meta['ran'].append({'cmd': 'pytest python/tests with the change', 'result': o1.strip()[-80:]})
@@ -77,6 +82,10 @@ def main():
         meta['confirmed_harmless_by_demo_and_tests'] = (rc0 == 0 and rc2 == 0 and '152 passed' in o1)
         env = dict(os.environ, FE_REPO=wt, FE_EVIDENCE=os.path.join(tempfile.gettempdir(), 'seeded_evidence'),
                    FE_BUILD=tempfile.mkdtemp(prefix='harmless_build_'))
+        if a.isolate:
+            iso = tempfile.mkdtemp(prefix='harmless_iso_')
+            sh('cp -a %s %s/lean' % (os.path.join(VERIF, 'lean'), iso))
+            env.update(FE_LEAN=iso + '/lean', FE_EVIDENCE=iso + '/evidence')
         os.makedirs(env['FE_EVIDENCE'], exist_ok=True)
         meta['checks'] = {}
         for p in props:
@@ -92,14 +101,17 @@ def main():
     finally:
         sh('git -C /repo worktree remove --force %s' % wt)
         shutil.rmtree(env.get('FE_BUILD', '/nonexistent'), ignore_errors=True)
-        for p in props:     # translators rewrite lean/FeVerif/Generated/* from the tree they are pointed at: regenerate from /repo
+        if a.isolate:
+            shutil.rmtree(iso, ignore_errors=True)
+        for p in ([] if a.isolate else props):     # translators rewrite lean/FeVerif/Generated/* from the tree they are pointed at: regenerate from /repo
             if glob.glob(os.path.join(VERIF, 'lean', 'FeVerif', 'Generated', p + '*')) or p in ('C01', 'C02', 'C03', 'C14', 'C16', 'C17'):
                 sh('cd %s && ./check %s --tier quick' % (VERIF, p),
                    env=dict(os.environ, FE_EVIDENCE=os.path.join(tempfile.gettempdir(), 'seeded_evidence')), timeout=3600)
     d = os.path.join(VERIF, 'seeded', 'harmless', a.name)
     os.makedirs(d, exist_ok=True)
-    shutil.copy(a.patch, os.path.join(d, 'patch.diff'))
-    shutil.copy(a.demo, os.path.join(d, os.path.basename(a.demo)))
+    for src, dst in ((a.patch, os.path.join(d, 'patch.diff')), (a.demo, os.path.join(d, os.path.basename(a.demo)))):
+        if os.path.abspath(src) != os.path.abspath(dst):
+            shutil.copy(src, dst)
     with open(os.path.join(d, 'meta.json'), 'w') as f:
         json.dump(meta, f, indent=1)
     print('filed under', d)
